@@ -250,7 +250,58 @@ func (e *c06Env) holdMid(st *c06Stream) {
 		time.Sleep(200 * time.Microsecond)
 	}
 	time.Sleep(2 * time.Millisecond)
+	e.lateData(st)
 	e.gate.disarm()
+}
+
+// lateData (round 7): the class "DATA that reaches the client after Response.Body.Close but before
+// the stream has been torn down". The caller has closed the body of st, the stream's
+// cleanupWriteRequest is waiting for cc.wmu behind the parked writer (its RST_STREAM is not out,
+// the stream is still in cc.streams), and the peer - which cannot know - sends more DATA, inside
+// the windows it was granted. The frame is sized so that the credit for it crosses the refresh
+// threshold of flow.go: the connection-level WINDOW_UPDATE that returns it is this frame's and
+// nobody else's. For the model: a DATA frame on a stream the client has forgotten (discarded,
+// credited at connection level), reported as a pd operation of its own.
+func (e *c06Env) lateData(st *c06Stream) {
+	e.lateTok, e.lateW = "", 0
+	if !e.lateWant || st == nil || st.cs == nil || st.noBody || !st.gotFinal || st.peerEnd || st.head || e.closed {
+		return
+	}
+	e.cc.mu.Lock()
+	_, in := e.cc.streams[st.id]
+	snap := e.cc.inflow
+	e.cc.mu.Unlock()
+	n := int64(inflowMinRefresh) - int64(snap.unsent)
+	if n < 1 {
+		n = 1
+	}
+	room := st.cwin
+	if e.cConnWin < room {
+		room = e.cConnWin
+	}
+	if !in || n > room || n > 16384 {
+		return
+	}
+	e.record(fmt.Sprintf("<d:%d:%d:0:0", st.id, n))
+	e.fr.WriteData(st.id, false, c06Zeros[:n])
+	e.cConnWin -= n
+	e.cSent += n
+	st.cwin -= n
+	for deadline := time.Now().Add(200 * time.Millisecond); time.Now().Before(deadline); time.Sleep(200 * time.Microsecond) {
+		e.cc.mu.Lock()
+		changed := e.cc.inflow != snap
+		e.cc.mu.Unlock()
+		if changed {
+			break
+		}
+	}
+	e.cc.mu.Lock()
+	_, in = e.cc.streams[st.id]
+	e.cc.mu.Unlock()
+	if in {
+		e.lateHits++ // the frame was handled while the stream was still registered
+	}
+	e.lateTok, e.lateW = fmt.Sprintf("pd:%d:%d:0:0", st.id, n), int64(snap.unsent)+n
 }
 
 // feedHeld: the request body of stream `id` hands its writer the next chunk; the writer is
@@ -309,7 +360,10 @@ func (e *c06Env) feedHeld(id uint32, n int, mid bool, sub string, sid uint32, m 
 	var tok string
 	switch sub {
 	case "x":
+		e.lateWant = m != 0
+		e.lateTok, e.lateW = "", 0
 		e.closeBody(sid)
+		e.lateWant = false
 		tok = fmt.Sprintf("hx:%d:%d:%d", id, n, sid)
 	case "r":
 		e.readBody(sid, m)
